@@ -387,6 +387,10 @@ func TestReplay(t *testing.T) {
 	if err != nil {
 		t.Fatal(err)
 	}
+	if cf.Sub == "api" {
+		replayAPI(t, cf.Case)
+		return
+	}
 	var c Case
 	if err := json.Unmarshal(cf.Case, &c); err != nil {
 		t.Fatal(err)
